@@ -68,7 +68,8 @@ def build_driver():
 
 def _extract(repo, facts_dir, all_targets=False):
     build_driver()
-    target = os.path.join(CACHE, ("target-all" if all_targets else "target") + ("" if repo == "/repo" else "-scratch"))
+    target = os.environ.get("VERIF_TARGET_DIR") or \
+        os.path.join(CACHE, ("target-all" if all_targets else "target") + ("" if repo == "/repo" else "-scratch"))
     os.makedirs(target, exist_ok=True)
     # force re-run of the wrapper on the workspace members
     for prof in glob.glob(os.path.join(target, "debug", ".fingerprint")):
@@ -161,7 +162,9 @@ class Facts:
 def get_facts(all_targets=False, repo=REPO, force=False):
     """Return Facts for the current working tree of `repo` (extracting if the tree changed)."""
     os.makedirs(CACHE, exist_ok=True)
-    lock = open(os.path.join(CACHE, "lock"), "w")
+    # one extraction at a time per build directory (parallel corpus workers bring their own VERIF_TARGET_DIR)
+    td = os.environ.get("VERIF_TARGET_DIR")
+    lock = open((td.rstrip("/") + ".lock") if td else os.path.join(CACHE, "lock"), "w")
     fcntl.flock(lock, fcntl.LOCK_EX)
     try:
         h = repo_hash(repo)
@@ -173,8 +176,9 @@ def get_facts(all_targets=False, repo=REPO, force=False):
         if force or not os.path.exists(ok):
             # keep only the most recent fact sets (disk)
             olds = sorted(glob.glob(os.path.join(CACHE, "facts", "*")), key=lambda p: os.stat(p).st_mtime)
-            for old in olds[:-5]:
-                shutil.rmtree(old, ignore_errors=True)
+            for old in olds[:-12]:
+                if time.time() - os.stat(old).st_mtime > 1800:
+                    shutil.rmtree(old, ignore_errors=True)
             extract_s = _extract(repo, facts_dir, all_targets)
             # the tree must not have changed while we extracted
             if repo_hash(repo) != h:
